@@ -211,6 +211,10 @@ enum Alt {
     Append { len: usize, kind: u8 },
     /// replace the entry file by a synthetic non-jubako input
     NonJbk { kind: usize },
+    /// the first `len` bytes are missing (a file cut at the front)
+    CutFront { len: usize },
+    /// the file is absent (a companion file of a multi-file container went missing)
+    Remove,
 }
 
 impl Alt {
@@ -223,6 +227,8 @@ impl Alt {
             Alt::Truncate { len } => json!({"truncate": len}),
             Alt::Append { len, kind } => json!({"append": [len, kind]}),
             Alt::NonJbk { kind } => json!({"nonjbk": kind}),
+            Alt::CutFront { len } => json!({"cutfront": len}),
+            Alt::Remove => json!("remove"),
         }
     }
     fn apply(&self, buf: &mut Vec<u8>, seed: u64) {
@@ -240,6 +246,10 @@ impl Alt {
                 }
             }
             Alt::Truncate { len } => buf.truncate(*len),
+            Alt::CutFront { len } => {
+                buf.drain(..(*len).min(buf.len()));
+            }
+            Alt::Remove => {}
             Alt::Append { len, kind } => {
                 let extra: Vec<u8> = match kind {
                     0 => vec![0; *len],
@@ -435,6 +445,14 @@ fn enumerate(sub: &str, thorough: bool, set: &[Loaded]) -> Vec<Case> {
                         for kind in 0..12 {
                             v.push(Case { container: ci, file: 0, alt: Alt::NonJbk { kind } });
                         }
+                    } else {
+                        v.push(Case { container: ci, file: fi, alt: Alt::Remove });
+                    }
+                    let cstep = if big && !thorough { 13 } else if thorough { 1 } else { 3 };
+                    let mut c = 1;
+                    while c < n {
+                        v.push(Case { container: ci, file: fi, alt: Alt::CutFront { len: c } });
+                        c += cstep;
                     }
                 }
             }
@@ -473,6 +491,9 @@ fn run_case(set: &[Loaded], case: &Case, scratch: &Path, seed: u64, pristine_dum
         let mut b = l.bytes[fi].clone();
         if fi == case.file {
             case.alt.apply(&mut b, seed);
+        }
+        if fi == case.file && matches!(case.alt, Alt::Remove) {
+            continue;
         }
         std::fs::write(dir.join(name), &b).unwrap();
     }
@@ -606,7 +627,7 @@ fn main() {
     let (prop, rule) = match args.sub.as_str() {
         "c04" => ("C04", "every byte inside a pack's checked range or check block (classified by the independent decoder) x xor masks {01,80,ff}, every aligned 4/16-byte run zeroed, (thorough) pairs of covered positions on the small containers; oracle: Pack::check of that pack, ContainerPack::check of the file and Container::check each answer false or an error; non-trivial = the altered byte is covered by a checksum; distinct by (container,file,alteration)"),
         "c05" => ("C05", "every byte of every file x {xor 01, xor 80, xor ff, set 00, set ff}, zero/ff-filled ranges of length {4,64} (thorough {2,4,8,64} at every start, plus pairs inside 64-byte blocks); oracle: node-by-node comparison of the full logical dump with the pristine dump (error nodes accepted; content hashes may differ only when check() is not true)"),
-        "c06" => ("C06", "every truncation length, every position x {01,80,ff}, zeroed ranges {4,64,4096}, appended garbage {1,63,64,65,4096} x 4 kinds, 12 non-jubako inputs; each case runs the whole reader (open, dump of every entry/value/content, three checks) in a worker process; oracle: no panic, no abort/signal, no hang"),
+        "c06" => ("C06", "every truncation length, every position x {01,80,ff}, zeroed ranges {4,64,4096}, appended garbage {1,63,64,65,4096} x 4 kinds, 12 non-jubako inputs, files cut at the front, companion files removed; each case runs the whole reader (open, dump of every entry/value/content, three checks) in a worker process; oracle: no panic, no abort/signal, no hang"),
         other => {
             eprintln!("unknown subcommand {other}");
             std::process::exit(2)
@@ -697,6 +718,10 @@ fn main() {
         });
     }
     let fates = fates.into_inner().unwrap();
+    let skipped = isolate::SKIPPED.load(std::sync::atomic::Ordering::Relaxed);
+    if skipped > 0 {
+        rep.cap(&format!("{skipped} cases were not run: the run was cut short after {} hanging cases", isolate::HANGS.load(std::sync::atomic::Ordering::Relaxed)));
+    }
     // ---- oracles
     let mut by_region: BTreeMap<String, u64> = BTreeMap::new();
     for (i, fate) in fates.iter().enumerate() {
@@ -705,7 +730,7 @@ fn main() {
         let fate = match fate {
             Some(f) => f,
             None => {
-                if replay_case.is_none() {
+                if replay_case.is_none() && skipped == 0 {
                     rep.machinery_errors.push(format!("case {i} was never run"));
                 }
                 continue;
